@@ -3,6 +3,7 @@ from __future__ import annotations
 
 import copy
 import hashlib
+import json
 import multiprocessing as mp
 
 from . import gamma, lib, metadata
@@ -102,6 +103,7 @@ def replay(run, tlc_result, opts=None, procs=16):
             for s in res["samples"]:
                 run.sample(s)
     run.extra["accepting_executions"] = run.extra.get("accepting_executions", 0) + accepts
+    run.traces_validated += max(0, tlc_result.ncases - len({json.dumps(o["case"], sort_keys=True) for o in bad}))
     return bad
 
 
